@@ -1,3 +1,115 @@
 import KsiVerif.Util.DriverMain
-open KsiVerif
-def main : IO Unit := runDriver (fun i _ => "skip no-model-yet " ++ i)
+import KsiVerif.Model.PubFile
+import KsiVerif.Model.PubString
+/-! Model driver for C18 — protocol in harness/exec_c18.c; the words after the executor's arguments are
+the generator's own facts (what OpenSSL would say, where the signature record starts, the expected answers). -/
+open KsiVerif KsiVerif.Template KsiVerif.Verify KsiVerif.PubFile
+
+def hexList (s : String) : List Bytes := if s == "-" then [] else (s.splitOn ",").filterMap ofHex
+
+def cfgOf (good : String) : Cfg := let gs := hexList good; { derOK := fun b => gs.contains b }
+
+def strOfBytes (b : Bytes) : String := String.fromUTF8! (ByteArray.mk b.toArray)
+
+def consOf (spec : String) : Option Constraints :=
+  if spec == "-" then none
+  else if spec == "e" then some []
+  else some ((spec.splitOn ",").filterMap fun p =>
+    match p.splitOn ":" with
+    | [oid, v] => (ofHex v).map fun b => (oid, strOfBytes b)
+    | _ => none)
+
+def subjOf (spec : String) (oid : String) : Option String :=
+  match consOf spec with
+  | some cs => (cs.find? (·.1 == oid)).map (·.2)
+  | none => none
+
+def pkiOf (sigrange chain subj : String) : Pki :=
+  { pkcs7 := fun _ d => match sigrange.toNat? with
+      | some n => if d.length == n then 0 else INVALID_PKI_SIGNATURE
+      | none => INVALID_PKI_SIGNATURE,
+    chain := fun _ => if chain == "1" then 0 else PKI_CERTIFICATE_NOT_TRUSTED,
+    subject := fun _ oid => subjOf subj oid }
+
+def specPf (label before out : String) : Option String :=
+  let ws := words out
+  let p := ws.headD "?"
+  let v := ws.getD 2 "?"
+  let w := ws.getD 3 "?"
+  if label == "reject" && p == "P0" then some "file-outside-the-structure-accepted"
+  else if label.startsWith "accept" && p != "P0" then some s!"well-formed-file-refused-{p}"
+  else if label.startsWith "accept" && before != "?" && ws.getD 1 "?" != s!"signed={before}" then some s!"signed-range-{ws.getD 1 "?"}-is-not-everything-before-the-signature-record-{before}"
+  else if label == "accept:trusted" && (v != "V0" || w != "W0") then some s!"rightly-signed-file-not-trusted-{v}-{w}"
+  else if (label == "accept:untrusted" || label == "changed") && p == "P0" && (v == "V0" || w == "W0") then some s!"{label}-file-reported-trusted"
+  else none
+
+def showPub (r : Option PubRec) : String :=
+  match r with
+  | some p => s!"0:{p.time}:{toHex p.imprint}"
+  | none => "0:-"
+
+def answer (pf : PubFile) (q : String) : String :=
+  match q.splitOn ":" with
+  | ["t", t] => showPub (byTime pf.pubs t.toNat!)
+  | ["ft", t] => showPub (byTime pf.pubs t.toNat!)
+  | ["n", t] => showPub (nearest pf.pubs t.toNat!)
+  | ["l", t] => showPub (latest pf.pubs t.toNat?)
+  | ["f", t, im] => showPub (findPub pf.pubs t.toNat! ((ofHex im).getD []))
+  | ["c", id] => match certById pf.certs ((ofHex id).getD []) with
+    | some c => s!"0:{Pub.crc32 c.cert}"
+    | none => "0:-"
+  | _ => "BAD-QUERY"
+
+/-- the implementation's answer agrees with the generator's reference scan: same time (or none) -/
+def answerMeets (exp got : String) : Bool :=
+  match exp.splitOn ":" with
+  | ["x", t] =>
+    let g := got.splitOn ":"
+    if t == "-" then g.getD 1 "?" == "-" else g.getD 0 "?" == "0" && g.getD 1 "?" == t
+  | _ => true
+
+def handle (inp out : String) : String :=
+  match words inp with
+  | "pf" :: h :: _anchors :: fc :: cc :: sigrange :: chain :: subj :: good :: before :: label :: _ =>
+    match specPf label before out with
+    | some why => s!"specfail pf:{label} {why}"
+    | none =>
+    match ofHex h with
+    | some raw =>
+      let cfg := cfgOf good
+      let ms := match parsePubFile cfg raw with
+        | .error e => s!"P{e}"
+        | .ok (vs, sl) =>
+          let pf := PubFile.ofVals cfg.tabs vs
+          let v := verify (pkiOf sigrange chain subj) raw sl pf.signature (consOf fc) (consOf cc)
+          s!"P0 signed={sl} V{v} W{v}"
+      let cls := s!"pf:{label}:{(words out).headD "?"}:{(words out).getD 2 "-"}"
+      if sigrange == "?" then
+        -- what OpenSSL makes of a damaged signature blob is not predicted: compare parsing and the signed range only
+        (if (words ms).take 2 == (words out).take 2 then s!"ok {cls}:pki-unpredicted" else s!"diff {cls} model={ms}")
+      else if ms == out then s!"ok {cls}" else s!"diff {cls} model={ms}"
+    | none => "skip bad-hex"
+  | "pq" :: h :: rest =>
+    let qs := rest.takeWhile (· != "|")
+    let extra := (rest.dropWhile (· != "|")).drop 1
+    let good := extra.headD "-"
+    let exps := extra.drop 1
+    match ofHex h with
+    | some raw =>
+      let cfg := cfgOf good
+      match parsePubFile cfg raw with
+      | .error e => let ms := s!"P{e}"; if ms == out then "ok pq:P" else s!"diff pq:P model={ms}"
+      | .ok (vs, _) =>
+        let pf := PubFile.ofVals cfg.tabs vs
+        let got := (words out).drop 1
+        let bad := (List.zip (List.zip qs exps) got).find? fun ((_, e), g) => !answerMeets e g
+        match bad with
+        | some ((q, e), g) => s!"specfail pq:{(q.splitOn ":").headD "?"} query-{q}-answered-{g}-reference-scan-says-{e}"
+        | none =>
+          let ms := " ".intercalate ("P0" :: qs.map (answer pf))
+          let kinds := ",".intercalate ((qs.map fun q => (q.splitOn ":").headD "?").eraseDups)
+          if ms == out then s!"ok pq:{kinds}:{pf.pubs.length}" else s!"diff pq:{kinds} model={ms}"
+    | none => "skip bad-hex"
+  | _ => "skip unknown-op"
+
+def main : IO Unit := runDriver handle
